@@ -92,31 +92,45 @@ theorem measured_eq_depth (doc : Doc) (vars : Vars) (hv : Valid doc vars) (op : 
   rw [depth_eq_cL doc vars op hv.1 hop]
   exact depthFixed_eq doc.frags vars (wt doc) hc hv.2.2 op (hv.2.1 op hop) fuel (by omega)
 
+/-- per-operation form: only this operation's selections (and the fragments) need bound variables -/
+theorem measured_eq_depth_op (doc : Doc) (vars : Vars) (ha : acyclic doc.frags = true)
+    (hfb : ∀ f ∈ doc.frags, boundL vars f.sels = true) (op : Op) (hop : op ∈ doc.ops)
+    (hb : boundL vars op.sels = true) (fuel : Nat) (hfuel : doc.fuel ≤ fuel) :
+    depthFixed fuel op doc.frags vars = .ok (depth doc vars op) := by
+  have hc := acyclic_consistent doc.frags ha
+  have hf := fuel_ok doc op hop
+  rw [depth_eq_cL doc vars op ha hop]
+  exact depthFixed_eq doc.frags vars (wt doc) hc hfb op hb fuel (by omega)
+
 /-! ### the loop over the operations -/
 
 /-- the errors the rule must report, as a pure function of the per-operation depths -/
-def expected (D : Op → Nat) (limit : Nat) (filter : Option String) : Nat → List Op → List (Nat × Nat)
+def expected (D : Nat → Op → Nat) (limit : Nat) (filter : Option String) : Nat → List Op → List (Nat × Nat)
   | _, [] => []
   | i, op :: rest =>
-    if opSelected filter op && decide (D op > limit) then (i, D op) :: expected D limit filter (i + 1) rest
+    if opSelected filter op && decide (D i op > limit) then (i, D i op) :: expected D limit filter (i + 1) rest
     else expected D limit filter (i + 1) rest
 
-private theorem ruleLoop_eq (depthOf : Op → Except Err Nat) (D : Op → Nat) (limit : Nat) (filter : Option String) :
-    ∀ (ops : List Op) (i : Nat), (∀ op ∈ ops, depthOf op = .ok (D op)) →
+private theorem ruleLoop_eq (depthOf : Nat → Op → Except Err Nat) (D : Nat → Op → Nat) (limit : Nat) (filter : Option String) :
+    ∀ (ops : List Op) (i : Nat), (∀ j op, ops[j]? = some op → depthOf (i + j) op = .ok (D (i + j) op)) →
       ruleLoop depthOf limit filter i ops = .ok (expected D limit filter i ops) := by
   intro ops
   induction ops with
   | nil => intro i _; simp [ruleLoop, expected]
   | cons op rest ih =>
     intro i h
-    have h1 := h op (by simp)
-    have h2 := ih (i + 1) (fun o ho => h o (by simp [ho]))
+    have h1 := h 0 op (by simp)
+    simp only [Nat.add_zero] at h1
+    have h2 := ih (i + 1) (fun j o ho => by
+      have := h (j + 1) o (by simpa using ho)
+      rw [show i + (j + 1) = i + 1 + j by omega] at this
+      exact this)
     simp only [ruleLoop, expected, h1, h2]
     cases opSelected filter op <;> simp
 
-private theorem mem_expected (D : Op → Nat) (limit : Nat) (filter : Option String) :
+private theorem mem_expected (D : Nat → Op → Nat) (limit : Nat) (filter : Option String) :
     ∀ (ops : List Op) (i0 j d : Nat), (j, d) ∈ expected D limit filter i0 ops ↔
-      ∃ op, i0 ≤ j ∧ ops[j - i0]? = some op ∧ opSelected filter op = true ∧ D op > limit ∧ d = D op := by
+      ∃ op, i0 ≤ j ∧ ops[j - i0]? = some op ∧ opSelected filter op = true ∧ D j op > limit ∧ d = D j op := by
   intro ops
   induction ops with
   | nil => intro i0 j d; simp [expected]
@@ -156,10 +170,57 @@ private theorem mem_expected (D : Op → Nat) (limit : Nat) (filter : Option Str
 /-- `rule` computes exactly `expected depth` on valid documents (every sufficient fuel). -/
 theorem rule_eq_expected (doc : Doc) (vars : Vars) (hv : Valid doc vars) (limit : Nat) (filter : Option String)
     (fuel : Nat) (hfuel : doc.fuel ≤ fuel) :
-    rule fuel limit filter doc vars = .ok (expected (depth doc vars) limit filter 0 doc.ops) := by
+    rule fuel limit filter doc vars = .ok (expected (fun _ => depth doc vars) limit filter 0 doc.ops) := by
   unfold rule
-  exact ruleLoop_eq _ (depth doc vars) limit filter doc.ops 0
-    (fun op hop => measured_eq_depth doc vars hv op hop fuel hfuel)
+  exact ruleLoop_eq _ (fun _ => depth doc vars) limit filter doc.ops 0
+    (fun j op hop => measured_eq_depth doc vars hv op (List.mem_of_getElem? hop) fuel hfuel)
+
+/-! ### after C19-Q1vars.patch: variables coerced per operation (`ruleV`) -/
+
+/-- validity as `ruleV` needs it: for every operation, the variables IT sees (coerced with its own
+    definitions and defaults; raw if they do not coerce) bind the directive variables -/
+def ValidV (doc : Doc) (defs : List (List VarDef)) (vars : Vars) : Prop :=
+  acyclic doc.frags = true ∧ ∀ i op, doc.ops[i]? = some op →
+    boundL (effectiveVars (defs.getD i []) vars) op.sels = true ∧
+    ∀ f ∈ doc.frags, boundL (effectiveVars (defs.getD i []) vars) f.sels = true
+
+/-- specified depth of the i-th operation under the variables execution would give it -/
+def depthV (doc : Doc) (defs : List (List VarDef)) (vars : Vars) (i : Nat) (op : Op) : Nat :=
+  depth doc (effectiveVars (defs.getD i []) vars) op
+
+theorem ruleV_eq_expected (doc : Doc) (defs : List (List VarDef)) (vars : Vars) (hv : ValidV doc defs vars)
+    (limit : Nat) (filter : Option String) (fuel : Nat) (hfuel : doc.fuel ≤ fuel) :
+    ruleV fuel limit filter doc defs vars = .ok (expected (depthV doc defs vars) limit filter 0 doc.ops) := by
+  unfold ruleV
+  apply ruleLoop_eq _ (depthV doc defs vars) limit filter doc.ops 0
+  intro j op hop
+  simp only [Nat.zero_add]
+  have h := hv.2 j op hop
+  exact measured_eq_depth_op doc _ hv.1 h.2 op (List.mem_of_getElem? hop) h.1 fuel hfuel
+
+/-- **flags_iff_v** — `flags_iff` for the rule that coerces the request variables per operation:
+    reported ⇔ selected by the filter and deeper than the limit under the operation's coerced variables
+    (declared defaults applied); nothing raised. -/
+theorem flags_iff_v (doc : Doc) (defs : List (List VarDef)) (vars : Vars) (hv : ValidV doc defs vars)
+    (limit : Nat) (filter : Option String) :
+    ∃ errs, ruleV doc.fuel limit filter doc defs vars = .ok errs ∧
+      ∀ (i : Nat) (op : Op), doc.ops[i]? = some op →
+        ((∃ d, (i, d) ∈ errs) ↔ (opSelected filter op = true ∧ depthV doc defs vars i op > limit)) := by
+  refine ⟨_, ruleV_eq_expected doc defs vars hv limit filter doc.fuel (Nat.le_refl _), ?_⟩
+  intro i op hi
+  constructor
+  · rintro ⟨d, hd⟩
+    obtain ⟨o, _, h2, h3, h4, _⟩ := (mem_expected _ limit filter doc.ops 0 i d).mp hd
+    simp [hi] at h2; subst h2
+    exact ⟨h3, h4⟩
+  · rintro ⟨h3, h4⟩
+    exact ⟨_, (mem_expected _ limit filter doc.ops 0 i _).mpr ⟨op, by omega, by simpa using hi, h3, h4, rfl⟩⟩
+
+/-- **no_raise_v** — total on every valid request, defaulted variables that are omitted included -/
+theorem no_raise_v (doc : Doc) (defs : List (List VarDef)) (vars : Vars) (hv : ValidV doc defs vars)
+    (limit : Nat) (filter : Option String) :
+    ∃ errs, ruleV doc.fuel limit filter doc defs vars = .ok errs :=
+  ⟨_, ruleV_eq_expected doc defs vars hv limit filter doc.fuel (Nat.le_refl _)⟩
 
 /-! ### headline theorems -/
 
